@@ -13,7 +13,7 @@
     3. Main loop measure  Psi = (MAX_FRAMES + 1 - frontier) * (|states| + 1) + #(bad states in the frontier
        frame):  blocking a bad cube removes it from the frontier frame ([block_loop_blocks]), a new frame
        lowers the first component.  [pdr_loop_post]: for EVERY fuel the result is a verdict, or [Fuel] with
-       fuel <= Psi or block fuel <= block_fuel_bound; never an error; Unknown only with frontier <= |states| + 1. *)
+       fuel <= Psi or block fuel <= pdr_block_fuel_bound; never an error; Unknown only with frontier <= |states| + 1. *)
 From Coq Require Import List Bool Arith Lia.
 From Patronus Require Import Ic3 PdrImpl PdrImplProofs PdrTermination.
 Import ListNotations.
@@ -288,7 +288,8 @@ Section PdrTerminationMain.
   Proof. apply filter_len_le. Qed.
 
   Definition pdr_fuel_bound (nstates : nat) : nat := S MAX_FRAMES * S nstates + nstates.
-  Definition pdr_block_fuel_bound (nstates : nat) : nat := block_fuel_bound MAX_FRAMES nstates 1.
+  (** the frontier never exceeds min (MAX_FRAMES, |states| + 1) when a bad cube is blocked *)
+  Definition pdr_block_fuel_bound (nstates : nat) : nat := block_fuel_bound (Nat.min MAX_FRAMES (S nstates)) nstates 1.
 
   Lemma Psi_bound st : Psi st <= pdr_fuel_bound (length states).
   Proof.
@@ -360,7 +361,7 @@ Section PdrTerminationMain.
                                              states states_all cube_state_holds cube_state_unique solver_ok Htot
                                              bf st1 _ Hinv1 Hb1 Hwork); [| exact Eb].
           cbn [length]. unfold pdr_block_fuel_bound in Hgt.
-          pose proof (block_fuel_bound_mono (frontier' st1) MAX_FRAMES (length states) 1 ltac:(lia)). lia. }
+          pose proof (block_fuel_bound_mono (frontier' st1) (Nat.min MAX_FRAMES (S (length states))) (length states) 1 ltac:(lia)). lia. }
       pose proof Eb as Eb'.
       apply (block_loop_spec lit lit_eqb St cube_of_state EM solve cmd_fail gen_on lit_holds bad0 step0 trans bad
                              cube_state_unique solver_ok) in Eb'; [| exact Hinv1 | exact Hb1 | exact Hwork].
